@@ -18,6 +18,10 @@ type LiveCase struct {
 	Control bool `json:"control"` // keep-alive requests (GET_PARAMETER / OPTIONS with the session id) on the control connection
 	Media   bool `json:"media"`   // play: RTCP receiver reports; record: RTP packets (datagrams or interleaved frames)
 	EveryMs int  `json:"every_ms"`
+	// PreludeMs: time spent (with OPTIONS keep-alives) between SETUP and PLAY/RECORD; FirstDelayMs: delay of the first
+	// keep-alive / media packet after PLAY/RECORD (below the timeout)
+	PreludeMs    int `json:"prelude_ms,omitempty"`
+	FirstDelayMs int `json:"first_delay_ms,omitempty"`
 	Keep    string `json:"keepalive,omitempty"` // GET_PARAMETER or OPTIONS
 }
 
@@ -120,10 +124,23 @@ func runLive(c LiveCase) (*liveStats, error) {
 	if c.Mode == "record" {
 		start = base.Record
 	}
+	if c.PreludeMs > 0 {
+		// a peer that takes its time between SETUP and PLAY/RECORD, keeping the connection alive meanwhile
+		for end := time.Now().Add(time.Duration(c.PreludeMs) * time.Millisecond); time.Now().Before(end); {
+			if _, err := must(&base.Request{Method: base.Options, URL: u, Header: hs()}); err != nil {
+				return st, err
+			}
+			time.Sleep(400 * time.Millisecond)
+		}
+	}
 	if _, err := must(&base.Request{Method: start, URL: u, Header: hs()}); err != nil {
 		return st, err
 	}
 	srvPorts := [2]int{portOf(w.S.UDPRTPAddress), portOf(w.S.UDPRTCPAddress)}
+	if c.FirstDelayMs > 0 && st.ExpectedAlive {
+		// the first sign of life comes late, though well inside the timeout
+		time.Sleep(time.Duration(c.FirstDelayMs) * time.Millisecond)
+	}
 	t0 := time.Now()
 	closedAt := func() (time.Duration, bool) {
 		if w.H.hasEvent("sessclose") {
